@@ -63,13 +63,10 @@ func replaceMatchers(selectors matcherHeap, expr *parser.Expr) {
 			filters := make([]*labels.Matcher, len(e.LabelMatchers))
 			copy(filters, e.LabelMatchers)
 
-			// All replacements are done on metrics name only,
-			// so we can drop the explicit metric name selector.
-			filters = dropMatcher(labels.MetricName, filters)
-
-			// Drop filters which are already present as matchers in the replacement selector.
-			// Only that very matcher is dropped: the selector can have further matchers
-			// on the same label name.
+			// Drop filters which are already present as matchers in the replacement selector,
+			// the metric name matcher they share among them. Only that very matcher is
+			// dropped: the selector can have further matchers on the same label name,
+			// also on the metric name.
 			for _, s := range replacement {
 				kept := filters[:0]
 				for _, f := range filters {
@@ -88,19 +85,6 @@ func replaceMatchers(selectors matcherHeap, expr *parser.Expr) {
 			return
 		}
 	})
-}
-
-func dropMatcher(matcherName string, originalMatchers []*labels.Matcher) []*labels.Matcher {
-	i := 0
-	for i < len(originalMatchers) {
-		l := originalMatchers[i]
-		if l.Name == matcherName {
-			originalMatchers = append(originalMatchers[:i], originalMatchers[i+1:]...)
-		} else {
-			i++
-		}
-	}
-	return originalMatchers
 }
 
 func matcherToMap(matchers []*labels.Matcher) map[string]*labels.Matcher {
